@@ -78,8 +78,38 @@ func parseRun(t []string) (mode string, tol int64, n int, me, off uint32, times 
 	return
 }
 
+// runCons drives a real Consensus; steps are "c<ns>" (ChangeView) or "t<ns>" (TryChangeView).
+func runCons(forkH, height uint32, running bool, tol int64, n int, me, off uint32, steps []string) []st {
+	vc := manager.NewVerifConsensus(time.Duration(tol), forkH, height, running, n, me, base, off)
+	var res []st
+	for _, x := range steps {
+		now := base.Add(time.Duration(i64(x[1:])))
+		switch x[0] {
+		case 'c':
+			vc.ChangeView(now)
+		case 't':
+			vc.TryChangeView(now)
+		default:
+			panic("harness: bad step " + x)
+		}
+		res = append(res, st{vc.Offset(), int64(vc.StartTime().Sub(base)), vc.OnDuty()})
+	}
+	return res
+}
+
+func parseCons(t []string) (forkH, height uint32, running bool, tol int64, n int, me, off uint32, steps []string) {
+	return u32(t[1]), u32(t[2]), t[3] != "0", i64(t[4]), int(u32(t[5])), u32(t[6]), u32(t[7]), t[8:]
+}
+
 func exec(t []string) string {
 	switch t[0] {
+	case "cons": // cons <forkHeight> <height> <running> <tolerance> <arbiters> <me> <offset> <c|t><ns> …
+		forkH, height, running, tol, n, me, off, steps := parseCons(t)
+		var parts []string
+		for _, s := range runCons(forkH, height, running, tol, n, me, off, steps) {
+			parts = append(parts, s.String())
+		}
+		return strings.Join(parts, " ")
 	case "v0": // v0 <tolerance ns> <duration ns>
 		o, r := manager.VerifOffsetV0(time.Duration(i64(t[1])), time.Duration(i64(t[2])))
 		return fmt.Sprintf("ok %d %d", o, int64(r))
@@ -245,6 +275,48 @@ func gen(g *hx.Gen) {
 		}
 		g.Emit("run %s %d %d %d %d %s", mode, tol, nn, me, off, joinI(genTimes(r, T)))
 	}
+	// the Consensus layer: heights around ChangeViewV1Height, both entry points mixed
+	for i := 0; i < n/2; i++ {
+		forkH := uint32(1 + r.Intn(2000000))
+		var height uint32
+		switch r.Intn(6) {
+		case 0:
+			height = forkH - 1
+		case 1, 2:
+			height = forkH
+		case 3:
+			height = forkH + 1
+		default:
+			height = uint32(r.Intn(int(2*forkH) + 2))
+		}
+		running := 1
+		if r.Chance(6) {
+			running = 0
+		}
+		nn := genN(r)
+		off := genCur(r, nn)
+		if r.Chance(50) {
+			off = 0
+		}
+		me := uint32(r.Intn(int(nn)))
+		T := genDur(r, 1500)
+		if T < 0 {
+			T = 0
+		}
+		ts := genTimes(r, T)
+		if r.Chance(40) {
+			ts = ts[len(ts)-1:]
+		}
+		steps := make([]string, len(ts))
+		for j, t := range ts {
+			k := "t"
+			if r.Chance(40) {
+				k = "c"
+			}
+			steps[j] = k + strconv.FormatInt(t, 10)
+		}
+		g.Emit("cons %d %d %d %d %d %d %d %s", forkH, height, running, 5*sec, nn, me, off, strings.Join(steps, " "))
+	}
 }
 
 // Property oracle, on the implementation alone: the state reached by polling
@@ -252,6 +324,25 @@ func gen(g *hx.Gen) {
 // view reaches when it evaluates once at the last time, and offsets must never
 // decrease along the schedule.
 func oracle(t []string, out string) *hx.Violation {
+	if t[0] == "cons" && out != "panic" {
+		// Both entry points of a running Consensus must evaluate the same schedule: once the
+		// tolerance has strictly passed, a fresh consensus moved by TryChangeView at the final time
+		// must be where a fresh consensus moved by ChangeView at that time is.
+		forkH, height, running, tol, n, me, off, steps := parseCons(t)
+		if !running || len(steps) == 0 {
+			return nil
+		}
+		T := i64(steps[len(steps)-1][1:])
+		if T <= tol {
+			return nil
+		}
+		a := runCons(forkH, height, true, tol, n, me, off, []string{"c" + strconv.FormatInt(T, 10)})[0]
+		b := runCons(forkH, height, true, tol, n, me, off, []string{"t" + strconv.FormatInt(T, 10)})[0]
+		if a.off != b.off || a.start != b.start {
+			return &hx.Violation{Kind: "cons-entry-points-disagree", Detail: fmt.Sprintf("height %d (ChangeViewV1Height %d), evaluated once at %d: ChangeView gives offset %d start %d, TryChangeView gives offset %d start %d", height, forkH, T, a.off, a.start, b.off, b.start)}
+		}
+		return nil
+	}
 	if t[0] != "run" || out == "panic" {
 		return nil
 	}
